@@ -1,0 +1,30 @@
+//go:build verif
+
+package cache
+
+import (
+	"sync/atomic"
+	"unsafe"
+)
+
+// VerifHookFn receives one call per cache event: the event's name, the height (0 where the call
+// site does not know it), an identity of the cache entry and its reference count right after the
+// event. The callback may block (gate).
+type VerifHookFn func(ev string, height uint64, acc uintptr, refs int32)
+
+var verifHook atomic.Pointer[VerifHookFn]
+
+// SetVerifHook installs (or, with nil, removes) the event callback.
+func SetVerifHook(f VerifHookFn) {
+	if f == nil {
+		verifHook.Store(nil)
+		return
+	}
+	verifHook.Store(&f)
+}
+
+func verifMark(ev string, height uint64, ac *accessor) {
+	if h := verifHook.Load(); h != nil {
+		(*h)(ev, height, uintptr(unsafe.Pointer(ac)), ac.refs.Load())
+	}
+}
